@@ -364,6 +364,27 @@ def run_roundtrip(ctx, case, tag='gen'):
     for kind, text in diff_models(exp, model_of(inc1)):
         ctx.violation('reread:%s' % kind, text, case)
         return
+    # the same file read into an object that already holds other initial conditions (other
+    # blocks, some of the same names in another order, its own timing): what was there before is gone
+    with ctx.guard(case, where='read-into-used-object') as g:
+        used = t2i.t2incon()
+        mine = [b['name'] for b in exp['blocks']]
+        for nm in (['ZZZ99'] + mine[::-1][:3] + ['ZZY 1']):
+            used[nm] = t2i.t2blockincon([9.9e9, 77.0], nm, porosity=0.99, permeability=[1.e-15, 2.e-15, 3.e-15])
+        used.timing = {'kcyc': 7, 'iter': 7, 'nm': 7, 'tstart': 7.0, 'sumtim': 7.0}
+        used.read(fn1, num_variables=nv if nv > 4 or case.get('force_nv') else None, check_blocknames=not needs_unchecked(case))
+    if g.raised is None:
+        ctx.count('reads_into_used_objects')
+        mu, m1 = model_of(used), model_of(inc1)
+        if any(b['permeability'] is not None for b in m1['blocks']) or m1['simulator'] == 'TOUGHREACT':
+            pass
+        else:
+            # (a reader that keeps the TOUGHREACT flavour of the object it reads into is left alone: the flavour of a
+            # file without permeability columns is not recognisable from the file)
+            mu = dict(mu, simulator=m1['simulator'])
+        for kind, text in diff_models(m1, mu):
+            ctx.violation('read-into-used-object:%s' % kind, 'compared with a fresh object reading the same file: ' + text, case)
+            return
     with ctx.guard(case, where='rewrite') as g:
         inc1.write(fn2, reset=case['reset'])
     if g.raised is not None:
